@@ -23,14 +23,15 @@ from . import VERIF_ROOT, AnalysisError
 from .selftest import _copy_pkg
 
 SEEDED = os.path.join(VERIF_ROOT, "seeded")
+BENIGN = os.path.join(VERIF_ROOT, "benign")
 
 
-def run_one(sid: str, parent: str, all_props: bool = False) -> dict:
+def run_one(sid: str, parent: str, all_props: bool = False, base: str = SEEDED) -> dict:
     from .index import Repo
     from .props import CLAIMED
     from .runner import run_property
 
-    d = os.path.join(SEEDED, sid)
+    d = os.path.join(base, sid)
     meta = json.load(open(os.path.join(d, "meta.json")))
     root = tempfile.mkdtemp(prefix="s-", dir=parent)
     try:
@@ -64,14 +65,20 @@ def main(argv=None) -> int:
     ap = argparse.ArgumentParser()
     ap.add_argument("--id", action="append")
     ap.add_argument("--all-props", action="store_true", help="run every claimed property, not only the targeted one")
+    ap.add_argument("--benign", action="store_true", help="run the behaviour-preserving changes under /verif/benign (all properties): expected silent, or analysis-error where recorded")
     a = ap.parse_args(argv)
-    ids = a.id or sorted(x for x in os.listdir(SEEDED) if os.path.isdir(os.path.join(SEEDED, x)))
+    base = BENIGN if a.benign else SEEDED
+    if a.benign:
+        a.all_props = True
+    ids = a.id or sorted(x for x in os.listdir(base) if os.path.isdir(os.path.join(base, x)))
     parent = tempfile.mkdtemp(prefix="verif-seeded-")
     bad = 0
     try:
         for sid in ids:
-            r = run_one(sid, parent, a.all_props)
-            ok = r["status"] == r.get("expect", "caught") or (r["status"] == "missed" and r.get("expect") == "missed-by-design")
+            r = run_one(sid, parent, a.all_props, base)
+            ok = r["status"] == r.get("expect", "caught") or (r["status"] == "missed" and r.get("expect") in ("missed-by-design", "silent"))
+            if a.benign and r["status"] == "missed" and r.get("expect") == "analysis-error":
+                ok = True  # better than recorded
             print(f"{r['id']:<10} {r.get('property', ''):<4} {r['status']:<15} expect={r.get('expect')} {'OK' if ok else '<<< MISMATCH'}")
             for f in r.get("fired", [])[:3]:
                 print("      ", f)
